@@ -227,6 +227,8 @@ pub const ITER_FLAVOURS: [&str; 7] = [
 #[derive(Serialize, Deserialize, Clone, Debug, PartialEq, Eq)]
 pub enum Op {
     Put { k: u32, v: Val },
+    /// the same put issued n times in a row (counters that wrap at 2^8 / 2^16 calls)
+    Burst { k: u32, v: Val, n: u32 },
     Get { k: u32 },
     Del { k: u32 },
     Inc { k: u32 },
@@ -244,6 +246,9 @@ pub enum Op {
     PutFromIter { kvs: Vec<(u32, Val)> },
     /// flavour index into ITER_FLAVOURS; take = None consumes everything (+3 extra next())
     Iter { f: u8, take: Option<u16> },
+    /// full traversal with other read-only calls between the steps: every `every`-th step a
+    /// lookup of pool key `k` (+step), len(), and a step of a second, nested iterator
+    IterMix { f: u8, every: u8, k: u32 },
     Stats,
     ReadFill,
     Flush,
@@ -255,6 +260,9 @@ pub enum Op {
     CloneHandle,
     /// drop one handle of the current map (never the last one)
     DropHandle,
+    /// drop every user handle of the current map (the database object keeps the map open); the
+    /// next call on the map re-acquires it through the database object
+    DropAll,
     /// re-acquire a handle through the db object (db_map_xxx(name))
     Reacquire,
     /// clone the db handle and re-acquire through the clone
@@ -270,6 +278,7 @@ impl Op {
         matches!(
             self,
             Op::Put { .. }
+                | Op::Burst { .. }
                 | Op::Del { .. }
                 | Op::PutStr { .. }
                 | Op::DelStr { .. }
@@ -341,4 +350,8 @@ pub struct History {
     /// number of parameter draws replaced because they fall into a known-finding region
     #[serde(default)]
     pub excluded: u64,
+    /// the per-call observers (decode after every call, full comparison, isolation) stay off
+    /// during the first `quiet_prefix` ops (bulk preludes that only bring the files into a region)
+    #[serde(default)]
+    pub quiet_prefix: usize,
 }
